@@ -84,7 +84,12 @@ static int loop_start(m_ctx_t *c, int max_events) {
 }
 
 static uint8_t loop_stop(m_ctx_t *c) {
-    c->state = M_CTX_IDLE;
+    /*
+     * Not looping anymore, but not idle yet: callbacks run by the flush below
+     * must not be able to deregister the ctx (neither explicitly nor by
+     * deregistering its last module), nor to loop it again.
+     */
+    c->state = M_CTX_STOPPING;
     
     /* Publish loop stopped system message */
     tell_system_pubsub_msg(NULL, c, NULL, M_PS_CTX_STOPPED);
@@ -111,6 +116,7 @@ static uint8_t loop_stop(m_ctx_t *c) {
     c->stats.idle_time = 0;
 
     int ret = c->quit_code;
+    c->state = M_CTX_IDLE;
     
     /*
      * ctx cannot be deregistered while looping,
@@ -484,7 +490,7 @@ _public_ int m_ctx_fd(void) {
 
 _public_ int m_ctx_dispatch(void) {
     M_CTX_ASSERT();
-    M_PARAM_ASSERT(c->state != M_CTX_ZOMBIE);
+    M_PARAM_ASSERT(c->state == M_CTX_IDLE || c->state == M_CTX_LOOPING);
 
     if (c->state == M_CTX_IDLE) {
         /* Ok, start now */
